@@ -119,6 +119,7 @@ pub fn c03(data: &[u8]) -> Option<c03::Case> {
         max_vocab,
         graphemes,
         trained: None,
+        long_word: 0,
     })
 }
 
@@ -302,6 +303,7 @@ pub fn c06(data: &[u8]) -> Option<c06::Case> {
         limit,
         padded: flags & 4 != 0,
         seed: Some((seed % 8) as u64),
+        repeat: 0,
     })
 }
 
@@ -381,7 +383,7 @@ pub fn c01(data: &[u8]) -> Option<c01::Case> {
     };
     let look = special_lookalikes(&special);
     let text = if flags & 8 != 0 { fuzz_text(&mut u, 16, false)? } else { fuzz_text_with(&mut u, &look, 16)? };
-    Some(c01::Case { kind, special, text, ignore_special: flags & 4 != 0 })
+    Some(c01::Case { kind, special, text, ignore_special: flags & 4 != 0, repeat: 0 })
 }
 
 pub fn c02(data: &[u8]) -> Option<c02::Case> {
@@ -397,7 +399,7 @@ pub fn c02(data: &[u8]) -> Option<c02::Case> {
         text.push_str(pick(&mut u, gen::WS_FRAGS)?);
     }
     let (max_vocab, graphemes) = fuzz_max_vocab(&mut u)?;
-    Some(c02::Case { table, text, max_vocab, graphemes, special, trained: None })
+    Some(c02::Case { table, text, max_vocab, graphemes, special, trained: None, long_word: 0 })
 }
 
 pub fn c14(data: &[u8]) -> Option<c14::Case> {
